@@ -1,5 +1,6 @@
 import Abyss.Renderable
 import Abyss.Lemmas.Vu64L
+import Abyss.Lemmas.ParseHtxAux
 /-!
 # The reader recovers a rendered table file (helper lemma for `parse_render`)
 -/
@@ -13,6 +14,105 @@ theorem parseHtx_render (kt : KeyType) (s : Store) (hsig : kt.sig.length = 8)
     (hlen : Gen.htxHeaderSz + 8 * s.n ≤ s.htxEnd)
     (hbits : ∀ b, s.bitOf b = true → b < 8 * (s.htxEnd - (Gen.htxHeaderSz + 8 * s.n))) :
     ∃ heads bits, parseHtx kt.sig (renderHtxFile kt.sig s) = some (s.n, s.count, heads, bits, s.htxEnd) ∧
-      (∀ b, (aget heads b).getD 0 = s.headOf b) ∧ (∀ b, (aget bits b).getD false = s.bitOf b) := by sorry
+      (∀ b, (aget heads b).getD 0 = s.headOf b) ∧ (∀ b, (aget bits b).getD false = s.bitOf b) := by
+  have h128 : Gen.htxHeaderSz = 128 := rfl
+  rw [h128] at hlen hbits
+  have hs1 : Gen.htxSig1.length = 8 := rfl
+  -- the three parts
+  obtain ⟨H, hH⟩ : ∃ H, H = Gen.htxSig1 ++ kt.sig ++ le64 s.n ++ le64 s.count ++ zeros 96 := ⟨_, rfl⟩
+  obtain ⟨T, hT⟩ : ∃ T, T = ((List.range s.n).map fun i => le64 (s.headOf i)).flatten := ⟨_, rfl⟩
+  obtain ⟨L, hL⟩ : ∃ L, L = s.htxEnd - (128 + 8 * s.n) := ⟨_, rfl⟩
+  have hfile : renderHtxFile kt.sig s = H ++ T ++ (List.range L).map (bitmapByte s.bitOf) := by
+    unfold renderHtxFile
+    simp only [h128, List.length_append, hs1, hsig, le64_length]
+    rw [hH, hT, hL, Nat.mul_comm s.n 8]
+  have hHlen : H.length = 128 := by
+    rw [hH]; simp [hs1, hsig, le64_length, zeros]
+  have hTlen : T.length = 8 * s.n := by
+    rw [hT]; exact flatten_range_length _ (fun j => le64_length _) _
+  have hflen : (renderHtxFile kt.sig s).length = s.htxEnd := by
+    rw [hfile]; simp [hHlen, hTlen, hL]; omega
+  generalize hF : renderHtxFile kt.sig s = file at *
+  have htake : file.take 8 = Gen.htxSig1 := by
+    rw [hfile, hH]; simp only [List.append_assoc]
+    exact List.take_left' hs1
+  have hdt : (file.drop 8).take 8 = kt.sig := by
+    rw [hfile, hH]; simp only [List.append_assoc]
+    rw [List.drop_left' hs1]; exact List.take_left' hsig
+  have hN : getLe64 file 16 = s.n := by
+    rw [hfile, hH]
+    have := getLe64_mid (Gen.htxSig1 ++ kt.sig)
+      (le64 s.count ++ zeros 96 ++ T ++ (List.range L).map (bitmapByte s.bitOf)) s.n 16
+      (by omega) (by simp [hs1, hsig])
+    simpa only [List.append_assoc] using this
+  have hC : getLe64 file 24 = s.count := by
+    rw [hfile, hH]
+    have := getLe64_mid (Gen.htxSig1 ++ kt.sig ++ le64 s.n)
+      (zeros 96 ++ T ++ (List.range L).map (bitmapByte s.bitOf)) s.count 24
+      hc (by simp [hs1, hsig, le64_length])
+    simpa only [List.append_assoc] using this
+  have hE : ∀ i, i < s.n → getLe64 file (128 + 8 * i) = s.headOf i := by
+    intro i hi
+    obtain ⟨pre, post, h1, h2⟩ := flatten_range_split (fun i => le64 (s.headOf i)) (fun j => le64_length _) s.n i hi
+    rw [hfile, hT, h1]
+    have := getLe64_mid (H ++ pre) (post ++ (List.range L).map (bitmapByte s.bitOf)) (s.headOf i) (128 + 8 * i)
+      (hh i) (by simp [hHlen, h2])
+    simpa only [List.append_assoc] using this
+  have hB : ∀ j, j < L → file.getD (128 + 8 * s.n + j) 0 = bitmapByte s.bitOf j := by
+    intro j hj
+    rw [hfile, List.getD_eq_getElem?_getD, List.getElem?_append_right (by simp [hHlen, hTlen])]
+    simp [hHlen, hTlen, hj]
+  have hparse : parseHtx kt.sig file = some (s.n, s.count,
+      (List.range s.n).filterMap (fun i => (if s.headOf i = 0 then none else some (s.headOf i)).map fun v => (i, v)),
+      (List.range (8 * L)).filterMap (fun i => (if s.bitOf i = true then some true else none).map fun v => (i, v)),
+      s.htxEnd) := by
+    unfold parseHtx
+    have c1 : ¬ file.length < Gen.htxHeaderSz := by rw [h128, hflen]; omega
+    have c2 : (!(file.take 8 == Gen.htxSig1 && (file.drop 8).take 8 == kt.sig)) = false := by
+      rw [htake, hdt]; simp
+    have c3 : ¬ file.length < Gen.htxHeaderSz + 8 * s.n := by rw [h128, hflen]; omega
+    rw [if_neg c1, c2]
+    simp only [Bool.false_eq_true, if_false, show Gen.htxHtSizeOffset = 16 from rfl,
+      show Gen.htxItemCountOffset = 24 from rfl, hN, hC, h128, hflen, ← hL]
+    rw [if_neg (by omega)]
+    have e1 : (List.range s.n).filterMap
+          (fun i => if getLe64 file (128 + 8 * i) = 0 then none else some (i, getLe64 file (128 + 8 * i))) =
+        (List.range s.n).filterMap
+          (fun i => (if s.headOf i = 0 then none else some (s.headOf i)).map fun v => (i, v)) := by
+      apply filterMap_congr_mem
+      intro i hi
+      rw [hE i (List.mem_range.mp hi)]
+      split <;> simp_all
+    have e2 : (List.range (8 * L)).filterMap
+          (fun i => if file.getD (128 + 8 * s.n + i / 8) 0 / 2 ^ (i % 8) % 2 = 1 then some (i, true) else none) =
+        (List.range (8 * L)).filterMap
+          (fun i => (if s.bitOf i = true then some true else none).map fun v => (i, v)) := by
+      apply filterMap_congr_mem
+      intro i hi
+      have hi' := List.mem_range.mp hi
+      have hiff := bitmapByte_bit s.bitOf (i / 8) (i % 8) (Nat.mod_lt _ (by omega))
+      rw [Nat.div_add_mod] at hiff
+      rw [hB (i / 8) (by omega)]
+      by_cases hb : s.bitOf i = true
+      · rw [if_pos (hiff.mpr hb), if_pos hb]; rfl
+      · rw [if_neg (fun h => hb (hiff.mp h)), if_neg hb]; rfl
+    rw [e1, e2]
+  refine ⟨_, _, hparse, ?_, ?_⟩
+  · intro b
+    rw [aget_filterMap]
+    by_cases hb : b < s.n
+    · simp only [List.mem_range, hb, if_true]
+      split <;> simp_all
+    · simp only [List.mem_range, hb, if_false]
+      rw [hlt b (by omega)]; rfl
+  · intro b
+    rw [aget_filterMap]
+    by_cases hb : b < 8 * L
+    · simp only [List.mem_range, hb, if_true]
+      cases s.bitOf b <;> simp
+    · simp only [List.mem_range, hb, if_false]
+      cases hbb : s.bitOf b with
+      | false => rfl
+      | true => exact absurd (hL ▸ hbits b hbb) hb
 
 end Abyss
